@@ -71,6 +71,16 @@ def _is_ctor(call):
     return bool(name) and name[0].isupper()
 
 
+def _own_nodes(fn):
+    """the nodes of a function body without the bodies of nested function definitions / lambdas"""
+    nested = (ast.FunctionDef, ast.AsyncFunctionDef, ast.Lambda, ast.ClassDef)
+    stack = [n for n in fn.body if not isinstance(n, nested)]
+    while stack:
+        n = stack.pop()
+        yield n
+        stack.extend(c for c in ast.iter_child_nodes(n) if not isinstance(c, nested))
+
+
 def slice_returns(repo):
     """for every `slice` method: the return statements that do NOT hand back a freshly constructed object
     (a constructor call, or a local name bound to one)"""
@@ -86,7 +96,7 @@ def slice_returns(repo):
                     if isinstance(node, ast.Assign) and isinstance(node.value, ast.Call) and _is_ctor(node.value):
                         fresh |= {t.id for t in node.targets if isinstance(t, ast.Name)}
                 bad = []
-                rets = [n for n in ast.walk(fn) if isinstance(n, ast.Return)]
+                rets = [n for n in _own_nodes(fn) if isinstance(n, ast.Return)]      # not those of nested helper functions
                 if not rets:
                     bad.append("no return statement")
                 for r in rets:
